@@ -26,7 +26,8 @@ MANIFEST = dict(
          "partitions the raw data exactly; (Kc) the real metadata walk over an index-form stream with symbolic unbounded value "
          "counts, offsets and an integer property gives lengths, positions, chunk counts and object lists equal to the format's "
          "arithmetic; (R) seeded random well-formed shapes (inheritance encodings, permuted orders, padding, mixed byte orders, "
-         "truncation) read eagerly and lazily, raw timestamps on/off.",
+         "truncation) read eagerly and lazily, raw timestamps on/off; (D) files whose chunks consist of one special bit pattern "
+         "(all zero, all ones, sign bit only: -0.0, INT_MIN, NaN) for every fixed-width type and both layouts.",
     note="Trusted: z3, sx engine, struct model, encoder/oracle. In (I) the solver enumerates structure (feasibility pruning, no "
          "generalisation); planted values include extremes and NaN payloads but are not all values. NumPy decoding given the "
          "right dtype is executed, not encoded.",
